@@ -208,6 +208,13 @@ func (v *catalog_[K, V]) RemoveValue(key K) V {
 	var association, exists = v.keys_[key]
 	if exists {
 		var index = v.associations_.GetIndex(association)
+		for candidate, existing := range v.associations_.AsArray() {
+			if existing == association {
+				// GetIndex() searches structurally, we need this very association.
+				index = candidate + 1
+				break
+			}
+		}
 		v.associations_.RemoveValue(index)
 		old = association.GetValue()
 		delete(v.keys_, key)
